@@ -108,7 +108,22 @@ fn one_case(seed: u64, case: u64, trace_on: bool) -> (Out, Option<Fail>) {
         trace: None,
         cfg: cfg.clone(),
     };
-    let mut w = match World::create(cfg, Opts::default(), rng) {
+    // stratum "many regions": tiny regions and enough data that the file spans several hundred of
+    // them, with the high regions in a different allocation state from the low ones (region numbers
+    // beyond one byte, per-region snapshot entries far apart in the allocator-state table)
+    let many_regions = case % 8 == 5;
+    let mut opts = Opts::default();
+    if many_regions {
+        cfg.page_size = 512;
+        cfg.region_pages = Some(8);
+        opts.keyspace = 4000;
+        opts.max_ops = 900;
+        opts.tables_per_kind = 1;
+        opts.kinds = vec![crate::model::Kind::A, crate::model::Kind::B, crate::model::Kind::D];
+        opts.catalog_ops = false;
+        out.cfg = cfg.clone();
+    }
+    let mut w = match World::create(cfg, opts, rng) {
         Ok(w) => w,
         Err(e) => return (out, Some(e)),
     };
@@ -252,6 +267,8 @@ fn one_case(seed: u64, case: u64, trace_on: bool) -> (Out, Option<Fail>) {
             out.cycles += 1;
             // immediately after the open: the allocation state must be exactly right
             acct_step(&w, &mut o6)?;
+            let e = out.counts.entry("max.regions_at_open".into()).or_insert(0);
+            *e = (*e).max(o6.last.regions);
             let with_pending = w.rng.bool();
             if with_pending {
                 let mut p = w.plan();
@@ -290,7 +307,9 @@ fn one_case(seed: u64, case: u64, trace_on: bool) -> (Out, Option<Fail>) {
     })();
     w.close();
     out.accountings = o6.accountings;
+    let max_regions = out.counts.get("max.regions_at_open").copied().unwrap_or(0);
     out.counts = w.counts.clone();
+    out.counts.insert("max.regions_at_open".into(), max_regions);
     out.trace = w.trace.take();
     let mut fail = r.err();
     if fail.is_none() {
@@ -325,7 +344,14 @@ pub fn run(rep: &Report) {
             rep.count("integrity_checks", out.integrity_checks);
             rep.count("accountings", out.accountings);
             rep.count("closed_files_decoded", out.closed_files_checked);
-            rep.merge_counts(&out.counts);
+            let mut counts = out.counts.clone();
+            if let Some(m) = counts.remove("max.regions_at_open") {
+                rep.count_max("max.regions_at_open", m);
+                if m > 256 {
+                    rep.count("cases_with_more_than_256_regions", 1);
+                }
+            }
+            rep.merge_counts(&counts);
             let crashes: u64 = out.stops.iter().filter(|(k, _)| k.starts_with("crash")).map(|(_, v)| *v).sum();
             if crashes > 0 {
                 rep.distinct(mix(case, crashes));
